@@ -81,6 +81,8 @@ example : H.new 3 21 = .error .precisionBounds ∧ H.new 19 21 = .error .precisi
 theorem wf_invariant {a b c : H} (wa : WF a) :
     (∀ h, WF (a.add h)) ∧ (a.merge b = .ok c → WF c) :=
   ⟨fun h => wa.add h, fun h => wa.merge h⟩
+example : WF ((H.empty 4 21).add 77) :=
+  (wf_invariant (b := H.empty 4 21) (c := H.empty 4 21) (WF.empty 4 21 (by decide) (by decide))).1 77
 
 /-! ## T-merge_hom -/
 
@@ -164,6 +166,9 @@ theorem merge_ok_same_params {a b c : H} (wa : WF a) (wb : WF b) (h : a.merge b 
     a.p = b.p ∧ a.ksize = b.ksize := by
   obtain ⟨hk, hs, _⟩ := (merge_ok_iff a b c).1 h
   exact ⟨(wa.same_pq wb hs).1, hk⟩
+example : (sketch 4 21 [1]).p = (sketch 4 21 [2]).p ∧ (sketch 4 21 [1]).ksize = (sketch 4 21 [2]).ksize :=
+  merge_ok_same_params (sketch_wf 4 21 _ (by decide) (by decide)) (sketch_wf 4 21 _ (by decide) (by decide))
+    (merge_hom 4 21 [1] [2])
 
 /-! ## T-persist -/
 
@@ -180,6 +185,8 @@ example : load (sketch 4 21 [3, 99]).save = .ok (sketch 4 21 [3, 99]) :=
 theorem persist_ksize_mod {s : H} (w : WF s) :
     load s.save = .ok { s with ksize := s.ksize % 256 } :=
   load_save_ksize s (by have := w.p_hi; omega) (by have := w.q_eq; omega) w.size_eq
+example : load (H.empty 4 300).save = .ok { H.empty 4 300 with ksize := 300 % 256 } :=
+  persist_ksize_mod (WF.empty 4 300 (by decide) (by decide))
 
 /-- the hypothesis of `persist` is necessary: k = 256 comes back as 0 -/
 theorem persist_fails_256 : load (H.empty 4 256).save ≠ .ok (H.empty 4 256) := by decide
